@@ -19,6 +19,12 @@ pub fn gen13(tier: &str, rng: &mut Rng) -> Vec<Spec> {
         let l = rng.range(2, 5) as usize; let xs = int_hist(rng, l, 50);
         v.push(Spec::new("expmed").with("ty", "f64").with("pre", g[rng.below(5) as usize].show()).with("mid", g[rng.below(5) as usize].show()).with("post", g[rng.below(5) as usize].show()).with("xs", join_rats(&xs)));
     }
+    // f64: a constant signal with NON-dyadic gains and values must be reproduced bit-exactly (x + (c - x)*w with x = c)
+    for (k, c) in [0.1f64, 13.0, 1.1, 0.3, 1234.567, -0.7].iter().enumerate() { for w in [0.1f64, 0.3, 1.0 / 3.0, 0.9] {
+        let cr = crate::util::f64_exact(*c).unwrap(); let wr = crate::util::f64_exact(w).unwrap(); let xs = vec![cr; 6 + k];
+        v.push(Spec::new("ema").with("ty", "f64").with("pre", wr.show()).with("xs", join_rats(&xs)));
+        v.push(Spec::new("expmed").with("ty", "f64").with("pre", wr.show()).with("mid", crate::util::f64_exact(0.7).unwrap().show()).with("post", crate::util::f64_exact(0.15).unwrap().show()).with("xs", join_rats(&xs)));
+    } }
     for i in 0..(if t { 3000 } else { 500 }) {
         let len = rng.range(2, if t { 14 } else { 10 }) as usize; let xs = rand_hist(rng, len, 5);
         let g = |rng: &mut Rng| if rng.below(8) == 0 { Rat::new(rng.range(-3, 9) as i128, 4) } else { Rat::new(rng.range(0, 8) as i128, 8) };
@@ -42,7 +48,9 @@ pub fn exec13(s: &Spec, stats: &mut Stats) -> Outcome {
     } else {
         let (mid, post) = (s.rat("mid"), s.rat("post"));
         let cfg = xmed::Config { pre: ema::Config { inverse_width: pre }, mid, post: ema::Config { inverse_width: post } };
-        (1, mid, post, run_all(&mut xmed::Median::with_config(cfg), &xs))
+        let built = xmed::Median::with_config(cfg);
+        let mut f = if xs.len() % 2 == 0 { built } else { use signalo_traits::ConfigClone; xmed::Median::with_config(built.config()) };
+        (1, mid, post, run_all(&mut f, &xs))
     };
     if p { stats.panics += 1; }
     let inside = |g: &Rat| *g >= Rat::int(0) && *g <= Rat::int(1);
